@@ -6,13 +6,15 @@
 wt=$1; cand=$(readlink -f "$2"); crate=$3; shift 3
 cd "$wt" || exit 2
 git checkout -q -- . && git clean -fdq -e target
+git checkout -q --detach "$(git -C /repo rev-parse HEAD)"
 mkdir -p "$crate/examples"
 cp "$cand/demo.rs" "$crate/examples/verif_demo.rs"
 echo "--- demo on clean tree"
 timeout 900 cargo run --offline --release -q -p "$crate" --example verif_demo "$@" >/tmp/cs.$$.a 2>&1; a=$?
 tail -3 /tmp/cs.$$.a
 echo "--- apply patch"
-git apply "$cand/patch.diff" || { echo "RESULT patch does not apply"; exit 2; }
+git apply "$cand/patch.diff" || git apply -3 "$cand/patch.diff" || { echo "RESULT patch does not apply"; exit 2; }
+git diff HEAD > "$cand/patch.rebased.diff"
 timeout 900 cargo run --offline --release -q -p "$crate" --example verif_demo "$@" >/tmp/cs.$$.b 2>&1; b=$?
 tail -3 /tmp/cs.$$.b
 rm -f "$crate/examples/verif_demo.rs"
